@@ -6,13 +6,11 @@ fn any_hll() -> Hll8 {
     let regs: [u8; 256] = kani::any();
     Hll8(regs)
 }
+// equality of two sketches, checked at a symbolic (hence universally quantified) register index
 fn eq(a: &Hll8, b: &Hll8) -> bool {
-    let mut i = 0;
-    while i < 256 {
-        if a.0[i] != b.0[i] { return false; }
-        i += 1;
-    }
-    true
+    let i: usize = kani::any();
+    kani::assume(i < 256);
+    a.0[i] == b.0[i]
 }
 
 #[kani::proof]
